@@ -557,8 +557,16 @@ def rule_readers_time(ck):
      if (w or priv) else oo.ok('nothing stored, nothing remembered'))
 
 
+def rule_forecast_rows(ck):
+    """the origin times of catalog-forecast rows are decoded through the exact string conversion, whole string and both formats (shared
+    C12-D4)"""
+    from . import c12
+    ck.clause('D2 (shared C12-D4: the rows of a catalog-forecast file are decoded with strptime_to_utc_epoch on the whole time string)')
+    c12.rule_columns(ck)
+
+
 def rule_exact_all(ck):
     rule_exact(ck)
 
 
-RULES = [rule_exact_all, rule_units, rule_utc, rule_formats, rule_decimal_year, rule_readers_time]
+RULES = [rule_exact_all, rule_units, rule_utc, rule_formats, rule_decimal_year, rule_readers_time, rule_forecast_rows]
